@@ -292,6 +292,22 @@ theorem full_when_fits (t t' : Tbl) (ls : List Line) (h : render t = .ok (t', ls
     have := ht cw hcw tl htl
     omega
 
+/-- For the default and for user-written field types the length used in the negotiation is the length
+of the text that is printed. (Not so for enum columns: `PPEnumFieldType` computes the length separately
+— `val` counts the widest key, not the value — so `full_when_fits` promises nothing about enum cells
+beyond its first clause; the example at the end of this file shows `True` cut to `...`.) -/
+theorem cell_len_exact (ft : FType) (m : Option (List Char)) (v : Val) (cell : Chunks × Align)
+    (hft : ft = .dflt ∨ ∃ cu, ft = .custom cu) (h : cellOf ft m v = .ok cell) :
+    cellLen ft m v = .ok (textOf cell.1).length := by
+  rcases hft with rfl | ⟨cu, rfl⟩
+  · unfold cellOf at h
+    by_cases hm : m = Option.none
+    · simp [hm] at h; subst h; simp [cellLen, dfltCell, textOf, plain]
+    · simp [hm] at h
+  · simp only [cellOf, Except.ok.injEq] at h
+    subst h
+    simp [cellLen, textOf, plain]
+
 /-- Title content. The `i`-th title line shows, between the separators of column `j`, the fitted
 `i`-th title line of that column's own field (an empty cell when the field has fewer title lines). -/
 theorem title_content (t t' : Tbl) (ls : List Line) (h : render t = .ok (t', ls)) :
@@ -486,10 +502,10 @@ theorem fmt_obj_ignores_printing (u u' : Tbl) (ls : List Line) (h : render u = .
 before it in the list — and a ready `RecordField` object keeps its own position; type and title are
 the element's own. -/
 theorem field_positions (specs : List FieldSpec) (i : Nat) (sp : FieldSpec) (h : specs[i]? = some sp) :
-    (mkFields 0 specs)[i]? = some ⟨sp.name, sp.ftype, sp.posAt i, genTitleLines sp.title sp.name⟩ ∧
+    (mkFields 0 specs)[i]? = some ⟨sp.name, sp.ftype, sp.posAt i, genTitleLines sp.title sp.name, false⟩ ∧
     (sp.pos = Option.none → sp.posAt i = i) ∧ (∀ p, sp.pos = some p → sp.posAt i = p) := by
   have gen : ∀ (l : List FieldSpec) (k j : Nat), l[j]? = some sp →
-      (mkFields k l)[j]? = some ⟨sp.name, sp.ftype, sp.posAt (k + j), genTitleLines sp.title sp.name⟩ := by
+      (mkFields k l)[j]? = some ⟨sp.name, sp.ftype, sp.posAt (k + j), genTitleLines sp.title sp.name, false⟩ := by
     intro l
     induction l with
     | nil => intro k j hj; simp at hj
@@ -622,7 +638,7 @@ theorem widths_faithful (t : Tbl) :
 /-! Non-vacuity: a concrete table with a break-by column, a too narrow column and limits `1:1`
 (three records, one break line: four lines > 1+1+1) is rendered by the kernel. -/
 
-private def demoField (n : String) (p : Nat) : Field := ⟨n.toList, .dflt, p, [Val.str n.toList]⟩
+private def demoField (n : String) (p : Nat) : Field := ⟨n.toList, .dflt, p, [Val.str n.toList], false⟩
 
 private def demo : Tbl :=
   { records := [[Val.int 1, Val.str "alpha".toList], [Val.int 1, Val.str "be".toList],
@@ -649,7 +665,7 @@ own value (`cell_content`), so every row shows its own `str(value)`: -/
 
 private def demoEnum : EnumType := ⟨[(Val.int 1, "one".toList), (Val.int 2, "two".toList)], Option.none⟩
 
-private def demoEnumField : Field := ⟨"a".toList, .enum demoEnum, 0, [Val.str "a".toList]⟩
+private def demoEnumField : Field := ⟨"a".toList, .enum demoEnum, 0, [Val.str "a".toList], false⟩
 
 private def demoEnumTbl : Tbl :=
   { records := [[Val.bool true], [Val.int 1], [Val.float "1.0".toList 1 1], [Val.float "7.0".toList 7 1], [Val.int 7]],
